@@ -587,7 +587,31 @@ def cls_refresh_after_damage_to_loaded_item(v, f):
                 loaded = True
         if not loaded:
             return False
-    return relevant > 0
+    if relevant == 0:
+        return False
+    # The finding is about KEEPING what was loaded before the damage.  A block that this refresh newly applies
+    # although it names a damaged pack is something else (the library re-reads and re-hashes the packs a block
+    # names whenever it examines the block): never this finding.
+    before = {}
+    for e in mine[:-1]:
+        if "status" in e.get("obs", {}):
+            before = e["obs"]["status"]
+    newly = [n for n, st in final_status.items() if st == "applied" and before.get(n) != "applied"]
+    if newly:
+        damaged_packs = {d["a"].get("key", "")[:-5] for _, d in damages if d["a"].get("key", "").endswith(".pack")}
+        named = {}
+        try:
+            with open(v["bundle"] + ".items.ndjson") as fh:
+                for line in fh:
+                    it = json.loads(line)
+                    if it.get("kind") == "delta" and it.get("name") in newly:
+                        named.setdefault(it["name"], set()).update(it.get("packs", []))
+        except OSError:
+            return False
+        for n in newly:
+            if named.get(n, set()) & damaged_packs:
+                return False
+    return True
 
 
 CLASSIFIERS = {"refresh_after_damage_to_loaded_item": cls_refresh_after_damage_to_loaded_item}
